@@ -54,6 +54,8 @@ pub static VERIF_CUR: Global<Option<usize>> = Global::new(None);
 /// when set, chunk splits and orders are fixed (index order, no split) - used by harnesses that
 /// need concrete container sizes
 pub static VERIF_DETERMINISTIC: Global<bool> = Global::new(false);
+/// a fixed chunk plan for the next parallel iterators: Some((split index, run the right chunk first))
+pub static VERIF_CHUNK_PLAN: Global<Option<(usize, bool)>> = Global::new(None);
 
 pub fn current_thread_index() -> Option<usize> {
     *VERIF_CUR.get()
@@ -480,14 +482,18 @@ where
 {
     use iter::plumbing::Consumer;
     let saved = *VERIF_CUR.get();
-    let res = if *VERIF_DETERMINISTIC.get() || len < 2 {
+    let plan = *VERIF_CHUNK_PLAN.get();
+    let res = if (plan.is_none() && *VERIF_DETERMINISTIC.get()) || len < 2 {
         *VERIF_CUR.get() = Some(pick_thread());
         consumer.consume_iter(producer.into_iter())
     } else {
-        let at = choose_upto(len);
+        let (at, right_first) = match plan {
+            Some((at, rf)) => (if at > len { len } else { at }, rf),
+            None => (choose_upto(len), choose_bool()),
+        };
         let (l, r) = producer.split_at(at);
         let (cl, cr) = (consumer.split(), consumer);
-        if choose_bool() {
+        if right_first {
             *VERIF_CUR.get() = Some(pick_thread());
             let rr = cr.consume_iter(r.into_iter());
             *VERIF_CUR.get() = Some(pick_thread());
